@@ -27,7 +27,9 @@ RULE = (
     "generated signatures (1..6 parameters over all five kinds, defaults, annotated and unannotated, "
     "names drawn from a pool containing T0/default0/ret0/T1/ret1/the function's own name) x callable "
     "kinds {def, lambda, async def, callable object} x descriptor kinds {function, method, classmethod, "
-    "staticmethod, property} x {typeguard, beartype}; each with binding well-typed, binding ill-typed and "
+    "staticmethod, property} x {typeguard, beartype}; each with binding well-typed (keywords named like the "
+    "wrapper's generated identifiers ret0/T0/default0/the function's name swallowed by **kwargs), binding "
+    "ill-typed (at a named parameter, or only among the extras of an annotated *args / **kwargs) and "
     "non-binding argument lists; observed: call counter, identity of received arguments, returned object "
     "identity / exception class, __name__/__qualname__/__doc__/__module__, inspect.signature, descriptor "
     "kind; plus the generated identifier scope of _make_fn_with_signature against the model; non-trivial = "
@@ -126,8 +128,9 @@ def build(sig, fname, flavour, rec, annot_ret=True, raises=None):
     return fn
 
 
-def gen_call(rng, sig, mode):
-    """mode: good | bad-type | nobind. returns (args, kwargs)"""
+def gen_call(rng, sig, mode, fname="fn"):
+    """mode: good | bad-type | bad-variadic | nobind. returns (args, kwargs, planted) where planted says that
+    exactly one annotated parameter received an ill-typed value"""
     ok = lambda: Duck((3,), "float32")  # noqa: E731
     args, kwargs = [], {}
     for p in sig:
@@ -150,8 +153,31 @@ def gen_call(rng, sig, mode):
             if not p["default"] or rng.chance(1, 2):
                 kwargs[p["name"]] = ok()
         elif k == "varkw":
-            for i in range(rng.below(3)):
-                kwargs[f"extra{i}"] = ok()
+            taken = {q["name"] for q in sig}
+            pool = [n for n in ("extra0", "extra1", "ret0", "T0", "default0", "ret1", "T1", "fn0", "self", "kwargs", "args", fname) if n not in taken]
+            for nm in rng.sample(pool, rng.below(4)):
+                kwargs[nm] = ok()
+    planted = False
+    if mode == "bad-variadic":
+        # every positional parameter positionally, then an ill-typed value among the extras of an annotated
+        # *args / **kwargs parameter (and nowhere else)
+        args, kwargs = [], {}
+        for p in sig:
+            if p["kind"] in ("posonly", "pos"):
+                args.append(ok())
+            elif p["kind"] == "kwonly" and not p["default"]:
+                kwargs[p["name"]] = ok()
+        vp = [p for p in sig if p["kind"] == "varpos" and p["annotated"]]
+        vk = [p for p in sig if p["kind"] == "varkw" and p["annotated"]]
+        bad = Duck((3, 3), "float32")
+        if vp and (not vk or rng.chance(1, 2)):
+            args += [ok()] * rng.below(2) + [bad]
+            planted = True
+        elif vk:
+            kwargs["extra_ok"] = ok()
+            kwargs["extra_bad"] = bad
+            planted = True
+        return args, kwargs, planted
     if mode == "bad-type":
         tgt = [p for p in sig if p["annotated"] and p["kind"] in ("pos", "kwonly", "posonly")]
         if tgt:
@@ -159,8 +185,10 @@ def gen_call(rng, sig, mode):
             bad = Duck((3, 3), "float32")
             if p["name"] in kwargs:
                 kwargs[p["name"]] = bad
-            elif args:
+                planted = True
+            elif args and sig[0]["annotated"] and sig[0]["kind"] in ("posonly", "pos"):
                 args[0] = bad
+                planted = True
     elif mode == "nobind":
         r = rng.below(3)
         if r == 0:
@@ -178,7 +206,7 @@ def gen_call(rng, sig, mode):
                 kwargs["__nope__"] = 1
                 if any(p["kind"] == "varkw" for p in sig):
                     args = [ok()] * 12
-    return args, kwargs
+    return args, kwargs, planted
 
 
 def outcome(fn, args, kwargs, is_async=False):
@@ -254,8 +282,10 @@ def run_sig(out, drv, rng, sig, fname, ck, flavour):
     check_metadata(out, f, g, flavour, rep)
     kinds = {p["kind"] for p in sig}
     collide = any(p["name"] in ("T0", "default0", "ret0", "T1", "ret1", "default1", "T2", fname) for p in sig)
-    for mode in ("good", "good", "bad-type", "nobind"):
-        args, kwargs = gen_call(rng, sig, mode)
+    for mode in ("good", "good", "bad-type", "bad-variadic", "nobind"):
+        args, kwargs, planted = gen_call(rng, sig, mode, fname)
+        if mode == "bad-variadic" and not planted:
+            continue
         rec_f.calls.clear()
         rec_g.calls.clear()
         a = outcome(f, args, kwargs, is_async)
@@ -282,8 +312,8 @@ def run_sig(out, drv, rng, sig, fname, ck, flavour):
                 out.violation(f"argument-identity:{flavour}", "the body did not receive the very same argument objects", r2)
         else:
             # ill-typed: the body must not run at all
-            if b[0] == "tce" and rec_g.calls:
-                out.violation(f"illtyped-body-ran:{flavour}", f"an ill-typed call ran the body {len(rec_g.calls)} times", r2)
+            if rec_g.calls and (b[0] == "tce" or planted):
+                out.violation(f"illtyped-body-ran:{flavour}:{mode}", f"a call whose arguments violate the annotations ({mode}) ran the body {len(rec_g.calls)} times and ended as {b}", r2)
 
 
 def descriptor_cases(out, ck):
